@@ -119,7 +119,9 @@ GTxChoices ==
   \cup {[T("changeparam", f) EXCEPT !.pk = k, !.val = "partial"] : f \in Users, k \in {3, IUpg}}
   \cup {[T("changeparam", f) EXCEPT !.pk = IAcl, !.val = "acl", !.aclv = v] : f \in Users, v \in AclVariants}
   \cup {[T("changeparam", f) EXCEPT !.pk = IAcl, !.val = w] : f \in Users, w \in {"malformed"}}
-  \cup {[T("changeparam", f) EXCEPT !.pk = IDao, !.val = "id", !.id = i] : f \in Users, i \in Users}
+  \* (ids 100+u: an outside address that LOOKS like user u's - same bytes but for the case of its letter bytes;
+  \*  an owner like any other outsider: user u is not it)
+  \cup {[T("changeparam", f) EXCEPT !.pk = IDao, !.val = "id", !.id = i] : f \in Users, i \in Users \cup {100 + u : u \in Users}}
   \cup {[T("changeparam", f) EXCEPT !.pk = IUpg, !.val = "upg", !.idx = h] : f \in Users, h \in {1001, 1002}}
   \cup {[T("upgrade", f) EXCEPT !.idx = h] : f \in Users, h \in {0, 2001, 2002}}
   \cup {[T("daotransfer", f) EXCEPT !.to = t, !.amt = x] : f \in Users, t \in Users \cup {DAO, N + 5, N + 6}, x \in Amts}
